@@ -17,7 +17,7 @@
 (* plus (2) = (1) and (3) = (1).                                                                          *)
 EXTENDS Integers, Sequences, FiniteSets, SequencesExt, TLC
 
-CONSTANT Configs      \* set of records [v, nx, ny, g, mode, far]
+CONSTANT Configs      \* set of records [v, nx, ny, g, mode, far]; far = wanted whole turns of the far-offset points (see Far)
 VARIABLE c
 
 Layouts  == {"sky", "zeroright", "planet", "zeroleft"}
@@ -135,11 +135,12 @@ ZeroAt(x) ==
       [] x.v = "zeroleft"  -> e = 0 /\ w = n - 1                          \* left edge; wraps to the right edge
 \* "latitude +90 at the top row", rows run monotonically down to -90 at the bottom row
 TopRow(x) ==
-    LET Q == Pole(x.ny, x.g) IN
-    /\ Row(x.ny, x.g, Q) = 0 /\ Row(x.ny, x.g, 0 - Q) = x.ny - 1
-    /\ \A j1, j2 \in LatPts(x) : j1 < j2 => Row(x.ny, x.g, j1) >= Row(x.ny, x.g, j2)
-    /\ \A j \in LatPts(x) : (LatOK(x.ny, x.g, j - Cell(x.g)) /\ j # Q)
-                              => Row(x.ny, x.g, j - Cell(x.g)) = Row(x.ny, x.g, j) + 1
+    LET Q  == Pole(x.ny, x.g)
+        js == SetToSortSeq(LatPts(x), <)                                  \* south to north
+        rf == TLCEval([j \in LatPts(x) |-> Row(x.ny, x.g, j)])
+    IN /\ rf[Q] = 0 /\ rf[0 - Q] = x.ny - 1
+       /\ \A a \in 1..(Len(js) - 1) : rf[js[a]] >= rf[js[a + 1]]         \* going north never goes down the map
+       /\ \A j \in LatPts(x) : (j # Q /\ (j - Cell(x.g)) \in LatPts(x)) => rf[j - Cell(x.g)] = rf[j] + 1
 \* the planetary layouts are the mirror images of the sky layouts; zero-edge = centred shifted by half a turn (docstrings)
 Mirror(x) ==
     \A k \in LonBase(x) :
